@@ -56,8 +56,11 @@ def registration(ctx, prog):
     """inductive step of the poll loop + allocate_channel: channels are polled iff not throttled, including channels opened later"""
     viol = []
     h, res = loop_iteration(ctx, prog)
+    # ... and with no channel open at all (the last one was closed during the stall): the bookkeeping must still follow, or the next
+    # channel to be opened is parked for ever
+    h0_, res0 = loop_iteration(ctx, prog, chans=())
     n = 0
-    for (s, rv) in res:
+    for (s, rv) in list(res) + list(res0):
         n += 1
         ps = post_state(prog, s, h)
         tr = [t[0] for t in s.trace]
@@ -186,7 +189,7 @@ use super::*;
 #[test]
 fn verif_replay_c18_late_channel() {
     let mut bad: Vec<String> = Vec::new();
-    for episode in [false, true].iter() {
+    for episode in [0u8, 1, 2].iter() {
         let mut io = IoLoop::new(crate::ConnectionTuning::default()).unwrap();
         io.inner.chan_slots.set_channel_max(100);
         let (ch0_slot, mut h0) = Channel0Slot::new(8);
@@ -194,9 +197,14 @@ fn verif_replay_c18_late_channel() {
         let (slot, _h1) = ChannelSlot::new(8, 1);
         io.poll.register(&slot.rx, mio::Token(1), mio::Ready::readable(), mio::PollOpt::edge()).unwrap();
         io.inner.chan_slots.insert(Some(1), |_| Ok((slot, ()))).unwrap();
-        if *episode {
+        if *episode >= 1 {
             // a back-pressure episode that is over: channels were de-registered and are registered again
             io.inner.deregister_nonzero_channels(&io.poll).unwrap();
+            if *episode == 2 {
+                // the only open channel went away during the stall (closed by the server): the episode ends with no channel open
+                let gone = io.inner.chan_slots.remove(1);
+                drop(gone);
+            }
             io.inner.reregister_nonzero_channels(&io.poll).unwrap();
         }
         let t = std::thread::spawn(move || {
